@@ -863,6 +863,10 @@ theorem iter0_ok (c : Cfg) : IterOK c c.iter0 :=
   ⟨C04.hostOrderOK_of_perm (Perm.refl _), C04.hostOrderOK_of_perm (Perm.refl _),
    C04.hostOrderOK_of_perm (Perm.refl _)⟩
 
+theorem iterSorted_ok (c : Cfg) : IterOK c c.iterSorted :=
+  ⟨C04.hostOrderOK_of_perm (sortBy_perm _ _), C04.hostOrderOK_of_perm (sortBy_perm _ _),
+   C04.hostOrderOK_of_perm (sortBy_perm _ _)⟩
+
 /-! ## `sortIngress`: the result is ordered by (creation, namespace/name) -/
 
 def Sorted {α : Type} (lt : α → α → Bool) : List α → Prop
